@@ -166,6 +166,11 @@ def n_alternatives(e):
 # ----------------------------------------------------------------------------
 # judging
 
+def ser(e):
+    import re
+    return re.sub(r"<LocKey (-?\d+)>", r"LocKey(\1)", repr(e))
+
+
 def _holds(c, env):
     """True / False / None (undefined)"""
     name = c.__class__.__name__
@@ -317,7 +322,7 @@ class C09(Check):
             res.case(nontrivial_key=repr(e) if nt else None,
                      sample={"expr": str(e), "alternatives": na} if nt and cnt[0] % 89 == 0 else None)
             if r is not None:
-                res.fail(r[0], r[1], {"expr": simplab.ser(e)})
+                res.fail(r[0], r[1], {"expr": ser(e)})
         hyp.survey(cases(), n, seed, one)
         return res
 
@@ -337,7 +342,7 @@ class C09(Check):
         small = simplab.shrink_expr(e, pred, budget=300 if tier == "quick" else 1500)
         r = judge(small)
         if r is not None and r[0] == failure.bucket:
-            return Failure(r[0], r[1], {"expr": simplab.ser(small)})
+            return Failure(r[0], r[1], {"expr": ser(small)})
         return failure
 
     def extra_evidence(self, m):
